@@ -244,7 +244,21 @@ impl Gen
         if max < min { return vec![]; }
         let n = self.rng.gen_range(min..=max);
         let mut out = vec![];
-        for _ in 0..n { if let Some(op) = self.op(in_ew, exclusive, applied) { out.push(op); } }
+        // immediate calls are only made by exclusive systems, and (in the programs generated here) before anything is queued
+        let imm: Vec<String> = self.g.alphabet.iter().filter(|n| matches!(n.as_str(), "irun" | "isysev" | "ibc" | "ieev")).cloned().collect();
+        let nimm = if exclusive && !imm.is_empty() && n > 0 && self.rng.gen_range(0..100) < 50 { self.rng.gen_range(1..=n.min(2)) } else { 0 };
+        for _ in 0..nimm
+        {
+            let name = imm[self.rng.gen_range(0..imm.len())].clone();
+            out.push(match name.as_str()
+            {
+                "irun" => Op::IRun(self.sys(applied)),
+                "isysev" => Op::ISysEv(self.sys(applied), self.payload()),
+                "ibc" => Op::IBc(self.ty(), self.payload()),
+                _ => Op::IEEv(self.ent(), self.ty(), self.payload()),
+            });
+        }
+        for _ in nimm..n { if let Some(op) = self.op(in_ew, exclusive, applied) { out.push(op); } }
         self.budget -= out.len().min(self.budget);
         out
     }
